@@ -4,17 +4,18 @@ open SamVerif.IntRange SamVerif.Assign
 #print axioms literal_error_iff
 #print axioms errors_aligned
 #print axioms above_range_always_rejected
-#print axioms int_range_exact_counterexample
-#print axioms int_range_exact_partial
+#print axioms int_range_exact
 #print axioms producer_conserves_tokens
-#print axioms accepted_literals_faithful_counterexample
-#print axioms accepted_literals_faithful_partial
+#print axioms accepted_literals_faithful
 #print axioms assignable_iff_equal
 #print axioms fault_slips_only_through_any
 #print axioms any_accepts_everything
 #print axioms meet_accepts_iff_assignable
 #print axioms meet_anyFree_eq
 #print axioms sameType_iff_equal
+#print axioms ifChain_join_exact
+#print axioms ifChain_one_wrong_branch_rejected
+#print axioms match_join_exact
 #print axioms arity_gate
 #print axioms call_arity_gate
 #print axioms assignable_reflexive
